@@ -15,7 +15,7 @@ func init() {
 	register(&propDef{
 		id: "C03",
 		meta: propMeta{
-			explanation: "Convergence is a liveness claim under fairness and is NOT decided. Decided: the exchange skeleton without which no fair schedule converges. (R1) on every non-error path the digest handler applies the digest, computes the delta for that digest and sends that delta to the requester; the delta/join/leave handlers and the joining side apply the decoded delta; (R2) digest discovery inserts unknown nodes at Version 0 and Digest() reports, for every known node without filtering, the Version field that applying entries advances (with C02.R2: resume exactly after the last applied entry); (R3) a gossip round initiates with a live node when there is one and, on every path on which that did not fail, with an unreachable node when there is one; (R4) a digest request covers every known node including the sender itself: Digest() appends every ranged node unconditionally and the digest encode loops skip no element other than by the size test; (R5) each packet is a version-ordered whole-entry prefix and makes progress (rules of C02.R3 and C13.R1/R2, run here too). Rules that only speed convergence up (the reply digest of push-pull) are deliberately not enforced.",
+			explanation: "Convergence is a liveness claim under fairness and is NOT decided. Decided: the exchange skeleton without which no fair schedule converges. (R1) on every non-error path the digest handler applies the digest, computes the delta for that digest and sends that delta to the requester; the delta/join/leave handlers and the joining side apply the decoded delta; (R2) digest discovery inserts unknown nodes at Version 0 and Digest() reports, for every known node without filtering, the Version field that applying entries advances (with C02.R2: resume exactly after the last applied entry); (R3) a gossip round initiates with a live node when there is one and, on every path on which that did not fail, with an unreachable node when there is one; (R4) a digest request covers every known node including the sender itself: Digest() appends every ranged node unconditionally and the digest encode loops skip no element other than by the size test; (R5) each packet is a version-ordered whole-entry prefix and makes progress (rules of C02.R3 and C13.R1/R2, run here too). Rules that only speed convergence up (the reply digest of push-pull) are deliberately not enforced. Second round: (R7) Delta answers every digest entry of a known node and appends the answer unless empty; (R8) the gossip round is started by New -> schedule -> ticker loop, which ends only on shutdown. Deliberately not enforced: reply digest, join ApplyDigest/full reply, full-digest arm (speed-ups only).",
 			ruleText:    "obligation = one handler path class / insert / append / loop; distinct = distinct keys",
 			assumptions: []string{"fair scheduling and eventual delivery (not checked)", "rand selection is uniform enough to reach every peer (not checked)"},
 		},
@@ -34,7 +34,7 @@ func init() {
 	register(&propDef{
 		id: "C12",
 		meta: propMeta{
-			explanation: "The property is numerical (proportional growth, thresholds never/always crossed, float rounding) and that part is NOT decided. Decided: the bookkeeping skeleton the numbers rest on. (R1) every received delta packet is reported to the detector on every non-error path, and ReportWithTimestamp hands every report's timestamp to the node's window (found or created-and-stored) on every path; (R2) arrivalWindow.Add stores lastTimestamp = timestamp on every path and feeds the window exactly timestamp.Sub(lastTimestamp).Nanoseconds() (unmodified) when a previous arrival exists, else exactly the bootstrap interval; Phi returns (timestamp - lastTimestamp) / Mean(); (R3) the circular window conserves its sum: the slice is allocated once, a slot store is preceded, whenever the window is full, by subtracting the old value of that very slot, followed by sum += v and mean = sum/size; the index advances by exactly one and wraps to 0 setting isFull exactly at len; (R4) UpdateLiveness marks unreachable exactly under SuspicionLevel(id) > threshold and reachable under its negation.",
+			explanation: "The property is numerical (proportional growth, thresholds never/always crossed, float rounding) and that part is NOT decided. Decided: the bookkeeping skeleton the numbers rest on. (R1) every received delta packet is reported to the detector on every non-error path, and ReportWithTimestamp hands every report's timestamp to the node's window (found or created-and-stored) on every path; (R2) arrivalWindow.Add stores lastTimestamp = timestamp on every path and feeds the window exactly timestamp.Sub(lastTimestamp).Nanoseconds() (unmodified) when a previous arrival exists, else exactly the bootstrap interval; Phi returns (timestamp - lastTimestamp) / Mean(); (R3) the circular window conserves its sum: the slice is allocated once, a slot store is preceded, whenever the window is full, by subtracting the old value of that very slot, followed by sum += v and mean = sum/size; the index advances by exactly one and wraps to 0 setting isFull exactly at len; (R4) UpdateLiveness marks unreachable exactly under SuspicionLevel(id) > threshold and reachable under its negation. Second round: (R5) window lifecycle - created only on a miss, stored, primed with the current time, dropped by Remove; (R6) the liveness driver and the Report/SuspicionLevel facades.",
 			ruleText:    "obligation = one path class / store / data-dependence shape; distinct = distinct keys",
 			assumptions: []string{"time values are monotone within one process (time.Now monotonic clock)", "float64 arithmetic is exact enough (not checked)"},
 		},
